@@ -25,7 +25,7 @@ def _viol(out, pid, check, symptom, site, c, lay, desc, detail="", config=None, 
 
 def run_unit(unit):
     pid, tier, idxs = unit
-    sp = pycodec.space(tier)
+    sp = pycodec.c_space(tier)
     cases = [sp[i] for i in idxs]
     out = UnitOut()
     # quick: the sanitizer build (the slowest compile) on every second batch; thorough: on all
@@ -253,7 +253,7 @@ def _run_py_case(pid, tier, c, mod, out):
 
 
 def units(pid, tier):
-    sp = pycodec.space(tier)
+    sp = pycodec.c_space(tier)
     idx = list(range(len(sp)))
     return [(pid, tier, idx[i:i + BATCH]) for i in range(0, len(idx), BATCH)]
 
@@ -280,7 +280,7 @@ def main(pid, tier):
              "backgrounds) on standard mode and on -O little/big for traditional states, Python out-of-range integers v+k*2^n, negative for "
              "unsigned; non-trivial = an input with one leaf overdriven",
         exhaustive=True,
-        bound="SING(%s) u COMB(2) u TREE(%d); full sweeps for structs <= %d bytes" % (tier, 4 if tier == "quick" else 5, copt.sweep_limit(tier)),
+        bound="SING(%s) u COMB(2) u TREE(%d) u HOMONYMS; full sweeps for structs <= %d bytes" % (tier, 4 if tier == "quick" else 5, copt.sweep_limit(tier)),
     )
     return finish(pid, tier, acc, cov, t0,
                   assumptions=["reference model bpmc/ref.py", "guard pages + ASan/UBSan observe every out-of-bounds access of the executed paths",
